@@ -5,7 +5,7 @@
 use std::{future::Future, pin::pin, task::Poll};
 
 use qbase::net::tx::{ArcSendWaker, Signals};
-use qconnection::path::AntiAmplifier;
+use qconnection::path::{AntiAmplifier, Constraints};
 use serde::{Deserialize, Serialize};
 use simcore::{Engine, Outcome, Rng, Tier, TraceHash, panics::guarded, wake::Task};
 
@@ -17,6 +17,10 @@ pub enum AaOp {
     /// bytes are fed back before the next credit read (the documented contract), otherwise after the whole burst
     /// (what `Path::send_packets` does with a multi-datagram burst)
     Burst { sizes: Vec<u16>, charge_each: bool },
+    /// one datagram assembled from several coalesced packets under the real `Constraints` (credit read once for the
+    /// datagram, `constrain` before and `commit` after every packet): `parts` = (bytes the packet wants, whether it
+    /// counts as in flight); the datagram must fit the credit whatever the packets carry
+    Coalesced { parts: Vec<(u16, bool)>, quota: u32 },
     Grant,
     Abort,
     /// the send task parks on CREDIT if the budget is exhausted
@@ -132,6 +136,59 @@ pub fn run(case: &AaCase) -> Outcome {
                     }
                 }
             }
+            AaOp::Coalesced { parts, quota } => {
+                let Some(b) = check_balance(&mut out, st, rcvd, sent, at, "coalesced") else { break };
+                let credit = match b {
+                    Err(_) | Ok(None) => continue,
+                    Ok(Some(c)) => c,
+                };
+                let mut c = Constraints::new(credit, *quota as usize);
+                let mut datagram = 0usize;
+                for (want, in_flight) in parts {
+                    if !c.is_available() {
+                        break;
+                    }
+                    // a packet that is not in flight (ACK / padding only) is not bound by the congestion quota
+                    // what `Constraints` lets this packet have: an in-flight packet is bound by credit and congestion
+                    // quota, one that only carries ACK / padding by the credit alone (burst.rs asks `is_available`)
+                    let room = if *in_flight {
+                        let mut buf = vec![0u8; 1500];
+                        c.constrain(&mut buf[..]).len()
+                    } else {
+                        // the remaining credit is not exposed: probe it through a copy with an unlimited quota
+                        let mut probe = c;
+                        probe.commit(0, false);
+                        let mut lo = 0usize;
+                        let mut hi = 1500usize;
+                        // largest n such that committing n leaves the constraints available or exactly uses them up
+                        while lo < hi {
+                            let mid = (lo + hi + 1) / 2;
+                            let mut t = c;
+                            t.commit(mid - 1, false);
+                            if t.is_available() { lo = mid } else { hi = mid - 1 }
+                        }
+                        lo
+                    };
+                    let len = (*want as usize).min(room);
+                    if len == 0 {
+                        continue;
+                    }
+                    c.commit(len, *in_flight);
+                    datagram += len;
+                }
+                th.add(datagram as u64);
+                if datagram > credit && st == St::Normal {
+                    out.violate("budget-exceeds-3x", "coalesced-datagram", format!("a datagram of {datagram} bytes was assembled from {parts:?} against {credit} bytes of credit"), at);
+                    break;
+                }
+                if datagram > 0 {
+                    aa.on_sent(datagram);
+                    if st == St::Normal {
+                        sent += datagram as i128;
+                    }
+                    out.stats.bump("op.coalesced_datagram_sent");
+                }
+            }
             AaOp::Burst { sizes, charge_each } => {
                 let mut total: i128 = 0;
                 let mut budget_at_start: Option<i128> = None;
@@ -231,7 +288,15 @@ impl Engine for AaSim {
                     let k = r.range(1, 5) as usize;
                     AaOp::Burst { sizes: (0..k).map(|_| *r.pick(&[1u16, 40, 300, 1200, 1452])).collect(), charge_each: !(overdraw && r.one_in(2)) }
                 }
-                7 | 8 => AaOp::Park,
+                7 => AaOp::Park,
+                8 => {
+                    if r.one_in(2) {
+                        AaOp::Park
+                    } else {
+                        let k = r.range(1, 3) as usize;
+                        AaOp::Coalesced { parts: (0..k).map(|_| (*r.pick(&[29u16, 45, 150, 600, 1200]), !r.one_in(3))).collect(), quota: *r.pick(&[0u32, 100, 1200, 12_000]) }
+                    }
+                }
                 _ => {
                     if r.one_in(4) {
                         if r.one_in(3) { AaOp::Abort } else { AaOp::Grant }
